@@ -30,6 +30,15 @@ EXC_TYPES = {
     "KeyError": KeyError,
     "RuntimeError": RuntimeError,
     "LookupError": LookupError,
+    # types a library is tempted to use for its own control flow (buffer.popleft(), next(), int(), ...)
+    "IndexError": IndexError,
+    "OSError": OSError,
+    "AssertionError": AssertionError,
+    "RecursionError": RecursionError,
+    "NotImplementedError": NotImplementedError,
+    "EOFError": EOFError,
+    "TimeoutError": TimeoutError,
+    "ZeroDivisionError": ZeroDivisionError,
     "Cancel": Cancel,
     "KeyboardInterrupt": KeyboardInterrupt,
 }
